@@ -45,6 +45,11 @@ def _first_arg(args, kwargs):
     return args[0] if args else None
 
 
+def _call_order(args, kwargs):
+    """A user hash function for which the ORDER of the keyword arguments matters (as written at the call site)."""
+    return (args, repr(list(kwargs.items())))
+
+
 def make_classes():
     """Fresh metaclasses and classes for one history."""
     del INIT_LOG[:]
@@ -78,6 +83,9 @@ def make_classes():
     class Custom(Base, metaclass=singleton.semi_singleton_metaclass(hashfunc=_first_arg)):
         pass
 
+    class OrderKey(Base, metaclass=singleton.semi_singleton_metaclass(hashfunc=_call_order)):
+        pass
+
     class EmptyBag(Base, metaclass=singleton.semi_singleton_metaclass()):
         """Container-like class: its instances are falsy (len 0)."""
 
@@ -109,18 +117,20 @@ def make_classes():
             INIT_LOG.append((type(self).__name__, id(self), args, dict(kwargs)))
             super().__init__()
 
-    classes = {c.__name__: c for c in (Own1, Own2, SharedA, SharedB, Parent, Child, Custom, SVertex, EmptyBag, Normalizer, Picky)}
+    classes = {c.__name__: c for c in (Own1, Own2, SharedA, SharedB, Parent, Child, Custom, SVertex, EmptyBag, Normalizer, Picky, OrderKey)}
     return classes
 
 
-CLASS_NAMES = ["Own1", "Own2", "SharedA", "SharedB", "Parent", "Child", "Custom", "SVertex", "EmptyBag", "Normalizer", "Picky"]
+CLASS_NAMES = ["Own1", "Own2", "SharedA", "SharedB", "Parent", "Child", "Custom", "SVertex", "EmptyBag", "Normalizer", "Picky", "OrderKey"]
 ARRANGEMENT = {"Own1": "own", "Own2": "own", "SharedA": "shared_metaclass", "SharedB": "shared_metaclass",
-               "Parent": "subclassing", "Child": "subclassing", "Custom": "custom_hashfunc", "SVertex": "vertex_subclass", "EmptyBag": "falsy_instances", "Normalizer": "init_mutates_arguments", "Picky": "init_may_raise"}
+               "Parent": "subclassing", "Child": "subclassing", "Custom": "custom_hashfunc", "SVertex": "vertex_subclass", "EmptyBag": "falsy_instances", "Normalizer": "init_mutates_arguments", "Picky": "init_may_raise", "OrderKey": "keyword_order_sensitive_hashfunc"}
 
 
 def model_key(cname, args, kwargs):
     if cname == "Custom":
         return ("custom", _first_arg(args, kwargs))
+    if cname == "OrderKey":
+        return ("order",) + _call_order(args, kwargs)
     return ("default", args, json.dumps(kwargs, sort_keys=True))
 
 
@@ -331,7 +341,7 @@ def prelude():
     """Seed-independent scripts that make every arrangement x situation appear."""
     out = []
     for a, b in (("Own1", "Own2"), ("SharedA", "SharedB"), ("Parent", "Child"), ("Child", "Parent"), ("Custom", "Own1"),
-                 ("SVertex", "Own1"), ("SharedB", "SharedA"), ("EmptyBag", "Own1"), ("Own2", "EmptyBag"), ("Normalizer", "Own1"), ("Picky", "Own2")):
+                 ("SVertex", "Own1"), ("SharedB", "SharedA"), ("EmptyBag", "Own1"), ("Own2", "EmptyBag"), ("Normalizer", "Own1"), ("Picky", "Own2"), ("OrderKey", "Own1"), ("Own2", "OrderKey")):
         for v1, v2 in ((0, 1), (2, 3), (5, 6), (12, 13), (19, 20), (9, 9)):
             out.append([
                 {"op": "new", "c": a, "a": [v1], "k": 0, "i": 0},
